@@ -344,11 +344,16 @@ pub fn install_panic_hook() {
                     format!("{}:{}", f, l.line())
                 })
                 .unwrap_or_default();
-            LAST_PANIC.with(|p| *p.borrow_mut() = Some(format!("{msg} @ {loc}")));
+            let _ = LAST_PANIC.try_with(|p| *p.borrow_mut() = Some(format!("{msg} @ {loc}")));
         } else {
             prev(info);
         }
     }));
+}
+
+/// First access of this module's thread-local state that has a destructor (see sched::ExitProbe).
+pub fn touch_tls() {
+    let _ = LAST_PANIC.try_with(|_| ());
 }
 
 pub fn guard<T>(f: impl FnOnce() -> Result<T, PasetoError>) -> Out<T> {
@@ -361,7 +366,7 @@ pub fn guard<T>(f: impl FnOnce() -> Result<T, PasetoError>) -> Out<T> {
     match r {
         Ok(Ok(t)) => Out::Ok(t),
         Ok(Err(e)) => Out::Err(ErrKind::of(&e)),
-        Err(_) => Out::Panic(LAST_PANIC.with(|p| p.borrow_mut().take()).unwrap_or_else(|| "panic".into())),
+        Err(_) => Out::Panic(LAST_PANIC.try_with(|p| p.borrow_mut().take()).ok().flatten().unwrap_or_else(|| "panic".into())),
     }
 }
 
